@@ -411,7 +411,7 @@ def handleEnvObs (h : EHist) (toks : List String) : EHist × List String × List
               if !fields.isEmpty then
                 out := out ++ [s!"K {h.id} {h.opIdx} {",".intercalate fields.eraseDups} {tail}"]; kDead := true
           let mut aud : List String := []
-          let neverDisabled := h.neverDisabled && (match op with | .trading false => false | _ => true)
+          let neverDisabled := h.neverDisabled && (match op with | .trading false => false | .on _ (.trading false) => false | _ => true)
           if ln.res != .panic then
             if ln.sh != "ok" then
               let isReload := match op with | .reload => true | _ => false
